@@ -15,12 +15,13 @@ from props import e2e
 
 ID = 'C01'
 HARNESS = 'solve'
-COQ_IMPORTS = 'From VRP Require Model.Routing. From VRP Require Import Base.Tac Model.Core Spec.Valid Spec.ValidTD Spec.ValidX Spec.Relations.'
-MODEL_TARGETS = ['theories/Spec/Valid.vo', 'theories/Spec/ValidTD.vo', 'theories/Spec/ValidX.vo', 'theories/Spec/Relations.vo']
+COQ_IMPORTS = 'From VRP Require Model.Routing. From VRP Require Import Base.Tac Model.Core Spec.Valid Spec.ValidTD Spec.ValidX Spec.ValidY Spec.Relations.'
+MODEL_TARGETS = ['theories/Spec/Valid.vo', 'theories/Spec/ValidTD.vo', 'theories/Spec/ValidX.vo', 'theories/Spec/ValidY.vo', 'theories/Spec/Relations.vo']
 MODEL_NEEDS_IMPL = True
 SHARD = 24
 SIZES = {'quick': 420, 'thorough': 4200, 'search': 1800}
 _R4 = "; round-four features, each in about 1/3 of the problems and from its own forked random stream: 2-4 extra jobs with REPLACEMENT tasks (also mixed with pickups / services / shipments), REQUIRED breaks (exact time or offset interval, 1-2 per shift, on shifts without optional breaks and reloads; documents show them as break activities inside a stop or as stops without location), VICINITY CLUSTERING (plan.clustering with the vehicles' profile, visiting continue / return, serving original with parking 0-10, thresholds taken from the matrix, 3-5 extra single-task jobs at a pair of near locations; not together with breaks, reloads, errorCodes or general routing data)"
+_R5 = '; round-five features, each from its own forked random stream: RECHARGE STATIONS in about 1/3 of the problems without required breaks / clustering (recharges.maxDistance = the length of a random 2-4 leg walk from the shift start, so that tours exactly at the limit occur; 1-3 stations per shift with location, duration 0-15, sometimes a time window / tag; combined with reloads, optional breaks, capacity dimensions, errorCodes, general routing data), SHARED RELOAD RESOURCES in about 2/3 of the problems with reloads (fleet.resources with 1-2 small capacity vectors, resourceId on about 3/4 of the reloads of all shifts)'
 RULE = ('cases: generated pragmatic problems (3-10 jobs: deliveries, pickups, services, shipments, multi jobs; 1-2 places / windows; '
         '1-3 vehicle types x 1-2 ids x 1-2 shifts, open and closed ends; capacity, skills, maxDistance / maxDuration / tourSize limits; '
         'additive features, each in about 1/3 of the problems and freely combined: job compatibility classes mixed with plain jobs, job '
@@ -30,13 +31,13 @@ RULE = ('cases: generated pragmatic problems (3-10 jobs: deliveries, pickups, se
         'maximize-value objective on), optional vehicle breaks (time window or offset interval, places with / without location, 1-2 per shift), '
         'general routing data for a quarter of the problems (1-2 profiles, integer scale, 2-3 timestamped matrices per profile); a fifth of '
         'the cases carry relations (any / sequence / strict, departure / arrival anchors, shiftIndex) derived from a solution of the same problem; '
-        'metric and non-metric integer matrices incl. the "cheap chain, expensive shortcut" shape' + _R4 + ') x 3 configurations each '
+        'metric and non-metric integer matrices incl. the "cheap chain, expensive shortcut" shape' + _R4 + _R5 + ') x 3 configurations each '
         '(max_generations 0-20, Parallelism none/(1,1)/(2,2), outer threads 1-2, quota firing after 0-89 polls or never). '
         'non-trivial = distinct (problem, document) whose document has a tour with >= 2 jobs or a binding constraint (an unassigned job).')
 TRUSTED = ['rendering of the JSON documents into the reduced Coq types and the rebuilding of Core activities from a reported tour '
            '(tools/props/e2e.py, Spec/Valid.v tour_acts / match_act): an activity is attributed to the job task place by location, duration and window',
            'real thread interleavings are sampled (three layouts), not enumerated']
-ASSUMPTIONS = ['problem fragment without recharges, reload resources, objectives override (optional breaks are in: window '
+ASSUMPTIONS = ['problem fragment without objectives override and relations naming break / reload / recharge (optional breaks are in: window '
                'of the break via the rebuilt activity, placement FBreakPlace; relations are in for a sixth of the cases: derived from a '
                'solution of the same problem on metric matrices without tour limits, pinning rules of Spec/Relations.v): those '
                'constraints are not exercised by this check',
@@ -49,6 +50,11 @@ ASSUMPTIONS = ['problem fragment without recharges, reload resources, objectives
                '(capacity, skills, order, limits on the stop-to-stop distance / duration, tour size with the clustered activities of a '
                'stop counted as one, every service start inside a time window of a place used, members within the threshold); the '
                'arrival-by-arrival time-window simulation is not run for such a tour',
+               'recharge stations and shared reload resources (Spec/ValidY.v): a recharge stop is judged by the existing rules as the demand-free '
+               'service activity of a pseudo job that offers the stations of the tour\'s shift (time windows, both legs, tour size ...), plus '
+               'FRechargeDistance (the distance driven between departure / recharges / end, the leg into a station counted for the stretch it ends); '
+               'which reload of a shift a reload stop is = the first one with its location and duration (the generator gives reloads of one shift '
+               'with equal location and duration the same resource; checked: res_ambiguous); not together with required breaks or clustering',
                'general routing data (several profiles, integer scale, time-dependent matrices with integer slopes) are judged by '
                'Spec/ValidTD.v over the C16 provider model; the step theorems are about time-independent routing',
                'groups: checked rule = all ASSIGNED jobs of a group are in one tour (the documentation\'s "or left unassigned" is read per job)']
@@ -132,19 +138,35 @@ def model_term(c, impl):
     """(violations of the returned document, [violations of every pure-construction document])"""
     s = _sol(impl)
     if s is None or e2e.unsupported(c, s):
-        return '(@nil violation, @nil (list violation))'
+        return '(@nil violation, @nil (list violation), (@nil (Z * Z), @nil (Z * Z)))'
     ids = e2e.Ids(c)
     cons = [e2e.term_F(c, d, ids, S=g) for d, g in [(d, e2e.g_solution(c, d, ids)) for _, d in constructed_docs(c, impl)]]
     # R = None: the classic fragment, feasible_viols_x None = Valid.feasible_viols; otherwise Spec/ValidTD.v (several profiles,
     # scale, time-dependent matrices: every leg evaluated at its departure time by the C16 provider model)
     return ('(let R := %s in let P := %s in let S := %s in '
-            '(precond_viol P ++ %s ++ rel_viols %s S, [%s]))') % (
+            '(precond_viol P ++ %s ++ rel_viols %s S, [%s], %s))') % (
         e2e.g_routing(c, ids), e2e.g_problem(c, ids), e2e.g_solution(c, s, ids), e2e.term_F(c, s, ids), e2e.g_relations(c, ids),
-        '; '.join(cons))
+        '; '.join(cons), e2e.term_resources(c, s, ids))
 
 
 def compare(c, impl, model):
-    return None          # the correspondence of the evaluator model is C06's; here the Coq value is the verdict (oracle_model)
+    # the correspondence of the evaluator model is C06's; here the Coq value is the verdict (oracle_model).  What IS compared:
+    # the Python twins of the two round-five rules (guards the JSON -> Gallina rendering of recharges / resources)
+    s = _sol(impl)
+    if s is None or e2e.unsupported(c, s) or not (isinstance(model, tuple) and len(model) == 3):
+        return None
+    ids = e2e.Ids(c)
+    if e2e.has_resources(c):
+        coq = sorted(tuple(x) for x in (model[2][0] or []))
+        twin = sorted((ids.resource(r), d) for r, d in e2e.py_resource_viols(c, s))
+        if coq != twin:
+            return 'reload-resource twin mismatch: python %s coq %s' % (twin, coq)
+    if e2e.has_recharges(c) and not e2e.general_routing(c) and not e2e.needs_x(c):
+        coq = sorted(t[1] for t in e2e.coq_viols(model[0], 'F') if t[0] == 'FRechargeDistance')
+        twin = e2e.recharge_distance_exceeded(c, s)
+        if coq != twin:
+            return 'recharge-distance twin mismatch: python %s coq %s' % (twin, coq)
+    return None
 
 
 CLASS = {'FNoTour': 'tour-not-rebuildable', 'FInfeasible': 'tour-infeasible', 'FCapacity': 'capacity-exceeded',
@@ -155,6 +177,7 @@ CLASS = {'FNoTour': 'tour-not-rebuildable', 'FInfeasible': 'tour-infeasible', 'F
          'FUnreachable': 'unreachable-leg', 'FCapacityDim': 'capacity-exceeded-in-extra-dimension',
          'FOrder': 'task-order-violated', 'FBreakPlace': 'break-not-at-a-place-of-a-break-of-the-shift',
          'FRequiredBreakMissing': 'required-break-missing', 'FReservedTime': 'reserved-time-of-required-break-used',
+         'FRechargeDistance': 'recharge-distance-exceeded',
          'FClusterWindow': 'service-starts-outside-the-time-windows', 'FClusterThreshold': 'cluster-member-beyond-threshold',
          'FRelVehicle': 'relation-job-on-another-vehicle-shift-or-not-served', 'FRelOrder': 'relation-order-broken',
          'FRelContiguous': 'strict-relation-not-contiguous', 'FRelAnchor': 'strict-relation-not-anchored'}
@@ -182,7 +205,10 @@ def oracle_model(c, impl, model):
         return []
     out = []
     m = c['matrices'][0]
-    if isinstance(model, tuple) and len(model) == 2 and not (model and isinstance(model[0], str)):
+    res_viols, res_amb = [], []
+    if isinstance(model, tuple) and len(model) == 3 and not (model and isinstance(model[0], str)):
+        main, cons, (res_viols, res_amb) = model
+    elif isinstance(model, tuple) and len(model) == 2 and not (model and isinstance(model[0], str)):
         main, cons = model
     else:                                   # callers that evaluated valid_b themselves (C07) pass the plain violation list
         main, cons = model, None
@@ -226,6 +252,7 @@ def oracle_model(c, impl, model):
             # the generator promises integer routing values at every departure time that can occur: this is an alarm about
             # the generated DATA (or the provider model), never silently skipped
             out.append({'class': 'routing-value-missing-or-not-integer', 'what': 'PRouting %s: general routing data outside the exact fragment' % list(t[1:])})
+    out += resource_violations(c, s, res_viols, res_amb)
     mats = c['matrices']
     # time-dependent data: the generated slopes are in {-1, 0, 1}, so arrival times are monotone in the departure (FIFO) and an
     # interpolation between metric matrices is metric: a removal can only hurt when SOME matrix violates the triangle inequality
@@ -243,6 +270,11 @@ def oracle_model(c, impl, model):
         elif tour is not None and e2e.tour_has_cluster(tour) and name in CLUSTER_CLASS:
             # findings C01-F11 .. F13: a tour with a clustered stop (vicinity clustering)
             cls = CLUSTER_CLASS[name]
+            if name == 'FClusterThreshold' and not clustered_multi_place_job(c, tour):
+                # the open causes of C01-F13 (members expanded with place 0; candidates reachable from ANY place of the centre)
+                # need a clustered job with several places.  With single-place jobs only, a member beyond the threshold was the
+                # swapped limits of clustering_reader.rs (repaired by 794c92a): a class of its own that is NOT a known finding
+                cls = 'clustered-tour:member-beyond-threshold-all-clustered-jobs-single-place'
         elif name == 'FRequiredBreakMissing' and tour is not None:
             # findings C01-F6 (moved break not written) / C01-F7 (break inside the last activity of an open tour not written)
             cls = e2e.rb_missing_class(c, tour)
@@ -259,6 +291,11 @@ def oracle_model(c, impl, model):
         elif name == 'FShiftStart' and tour is not None and \
                 ((e2e.vehicle_type_of(c, tour) or {}).get('limits') or {}).get('maxDuration') is not None:
             cls = 'departure-outside-shift-start-max-duration-vehicle'
+        elif name == 'FInfeasible' and tour is not None and departure_advanced_across_required_break(c, tour):
+            # NOT a known finding (outside the documented fragment, break.md: required breaks need start.latest = start.earliest): the departure-time optimisation moves the departure later by the slack it reads off the current
+            # schedule (1:1 assumption, as in C01-F5); a reserved time that lay before the first drive then falls into it (or into
+            # a service) and delays every later arrival by the break's duration
+            cls = 'tour-infeasible-departure-advanced-across-a-required-break'
         elif name == 'FInfeasible' and tour is not None and departure_advanced_under_td(c, tour):
             # finding C01-F5: try_advance_departure_time (departure_time.rs) shifts the departure by the waiting time / slack it
             # reads off the CURRENT schedule, i.e. it assumes every arrival moves 1:1 with the departure; with travel times that
@@ -266,6 +303,14 @@ def oracle_model(c, impl, model):
             cls = 'tour-infeasible-departure-advanced-with-time-dependent-durations'
         elif name == 'FMaxDistance' and nonmetric_d:
             cls = 'max-distance-exceeded-nonmetric-matrix'
+        elif name == 'FRechargeDistance' and tour is not None and time_dependent_distances(c, tour):
+            # finding C01-F17: the recharge rule (and every distance limit) is evaluated on the LOCAL distance delta of an insertion
+            # at the current departure times; with distances that depend on the departure time the legs behind the insertion
+            # point are driven later and may be longer than they were when the counter was computed
+            cls = 'recharge-distance-exceeded-with-time-dependent-distances'
+        elif name == 'FRechargeDistance' and nonmetric_d:
+            # same root cause as C01-F1 (a removal lengthens what stays when the distances violate the triangle inequality)
+            cls = 'recharge-distance-exceeded-nonmetric-matrix'
         elif name in ('FMaxDuration', 'FInfeasible') and nonmetric_t:
             cls = CLASS[name] + '-nonmetric-matrix'
         elif name == 'FUnreachable' and docs and len(docs) == len(cons) and not cons_bad:
@@ -275,6 +320,79 @@ def oracle_model(c, impl, model):
             cls = 'unreachable-leg-absent-from-pure-construction'
         out.append({'class': cls, 'what': '%s %s (tour index, detail)' % (name, list(t[1:]))})
     return out
+
+
+def resource_violations(c, s, res_viols, res_amb):
+    """oracle violations for ValidY.resource_viols / res_ambiguous, the class derived from the structure of the failing input"""
+    out = []
+    ids = e2e.Ids(c)
+    names = {v: k for k, v in ids.resources.items()}
+    for x in res_amb or []:
+        out.append({'class': 'reload-resource-of-a-stop-not-determined-by-location-and-duration',
+                    'what': 'generator error: vehicle type %s shift %s has two reloads with one location and duration and different resources' % tuple(x)})
+    dims = e2e.capacity_dims(c)
+    for rid, d in [tuple(x) for x in res_viols or []]:
+        name = names.get(rid, '#%s' % rid)
+        use = e2e.py_resource_use(c, s)
+        cap = [r['capacity'] for r in c['problem']['fleet'].get('resources') or [] if r['id'] == name]
+        multi = e2e.resource_multi_task_contributors(c, s, name)
+        if dims > 1:
+            # finding C01-F14: SharedResourceConstraint::evaluate_activity asks `available.partial_cmp(demand) == Some(Less)`; two load
+            # vectors that are not comparable (one dimension fits, another does not) are NOT `Less`, so the insertion is accepted
+            cls = 'reload-resource-exceeded-with-multi-dimensional-capacity'
+        elif multi:
+            # finding C01-F15: the second and later activities of a multi-task job are evaluated on a route whose resource state was
+            # reset by prevent_resource_consumption, which blocks only the intervals that ALREADY load something from a resource
+            cls = 'reload-resource-exceeded-by-delivery-of-a-multi-task-job'
+        else:
+            cls = 'reload-resource-exceeded'
+        out.append({'class': cls, 'what': 'resource %s, dimension %d: the tours load %s static deliveries at its reload stops, capacity %s%s' % (
+            name, d, use.get((name, d)), cap[0] if cap else '?', '; tasks of multi-task jobs among them: %s' % multi if multi else '')})
+    return out
+
+
+def clustered_multi_place_job(c, tour):
+    """some activity of the tour that is served as a cluster member (it carries a commute field) belongs to a job one of whose
+    tasks offers several places"""
+    jobs = {j['id']: j for j in c['problem']['plan']['jobs']}
+    for st in tour['stops']:
+        for a in st['activities']:
+            if a.get('commute') is not None:
+                j = jobs.get(a.get('jobId'))
+                if j is None or any(len(t['places']) > 1 for _, t in e2e.tasks_of(j)):
+                    return True
+    return False
+
+
+def time_dependent_distances(c, tour):
+    """structure of finding C01-F17: the matrices of the tour's profile carry timestamps and their DISTANCES differ"""
+    try:
+        vt = e2e.vehicle_type_of(c, tour)
+        prof = vt['profile']['matrix']
+        ms = [m for m in c['matrices'] if m.get('profile') == prof and m.get('timestamp') is not None]
+        return len(ms) >= 2 and any(m['distances'] != ms[0]['distances'] for m in ms)
+    except Exception:  # noqa
+        return False
+
+
+def departure_advanced_across_required_break(c, tour):
+    """structure seen outside the documented fragment (break.md): the tour's shift defines required breaks by EXACT time, its start has no `latest` equal to
+    `earliest` (the departure may move), and the tour departs later than the shift's earliest start"""
+    try:
+        brs = e2e.tour_required_breaks(c, tour)
+        if not brs or any(e2e.required_break_times(b)[2] for b in brs):
+            return False
+        vt = e2e.vehicle_type_of(c, tour)
+        sh = vt['shifts'][tour.get('shiftIndex', 0)]
+        if sh['start'].get('latest') is not None and e2e.secs(sh['start']['latest']) == e2e.secs(sh['start']['earliest']):
+            return False
+        facts = e2e._flat_facts(tour)
+        # the route's own departure: the reported departure of the first stop, or the start of a break the writer moved in front of it
+        moved = e2e.rb_moved_before_departure(c, tour)
+        dep = moved[0] if moved else facts[0]['end']
+        return dep > e2e.secs(sh['start']['earliest'])
+    except Exception:  # noqa
+        return False
 
 
 def departure_advanced_under_td(c, tour):
